@@ -28,6 +28,9 @@ struct Verdict {
   bool discard{false}; // case not valid for this property (generator artefact)
   std::vector<std::string> labels;
   Json::Value detail;
+  long weight{1}; // evaluations this case stands for (batches of enumerated sub-cases)
+  std::vector<size_t> sub_nontrivial; // hashes of non-trivial sub-cases of a batch
+  Json::Value sample; // a representative sub-case for the evidence samples
   void fail(const std::string& w) {
     if (ok) {
       ok = false;
